@@ -93,7 +93,9 @@ def hex_tok(draw):
     return ('hex', b, prefix, upper)
 
 
-SEPS = [' ', ' ', ' ', '  ', '\t', '\n', ' \n ', ' # a comment\n', '\r\n']
+# separators between the tokens of a bracketed script: blanks, line ends, comments (a comment runs from '#' to the end of the line, wherever the '#' stands -
+# also glued to the token or the closing bracket before it - and its text is free: brackets in it are text), and nothing at all after a closing bracket
+SEPS = [' ', ' ', ' ', '  ', '\t', '\n', ' \n ', ' # a comment\n', '\r\n', '# glued comment\n', ' # see [1] or ]x[ [[\n', '#]\n', 'ADJ', ' #\n']
 
 
 def tokens(depth):
